@@ -212,6 +212,10 @@ def _skeleton(p, kind, is_mux):
                     out.append("emit(%s)" % _value_role(e.arg, reads))
             else:
                 out.append(e.method)
+    # writing the accumulator back and emitting it commute (no observable difference on normal paths)
+    for k in range(len(out) - 1):
+        if out[k].startswith("emit(") and out[k + 1].startswith("store(") and out[k][5:] == out[k + 1][6:]:
+            out[k], out[k + 1] = out[k + 1], out[k]
     return tuple(out)
 
 
